@@ -150,7 +150,7 @@ inductive Back (P : Type) where
   | none                                         -- `return None`
   | diverge                                      -- the Python loop would not end / KeyError (proved impossible)
   | path (nodes : List Nat) (geom : List P)      -- `track.path`, coordinates of the returned track
-deriving Repr
+deriving Repr, DecidableEq
 
 /-- the `while node.antecedent != "":` loop; `nodes` = NODES_PATH, `track` = points of `track` -/
 def backAux {P : Type} (net : Net W) (geo : Geo P) (st : St W) :
